@@ -105,8 +105,33 @@ def with_scenarios(gen, share=0.15):
     """mixes the directed identity / late-key scenarios into a random profile"""
     def pick(rng):
         r = rng.random()
-        return identity_scenario(rng) if r < 0.5 else late_key_scenario(rng) if r < 0.75 else refused_edit_scenario(rng)
+        return identity_scenario(rng) if r < 0.45 else late_key_scenario(rng) if r < 0.7 else refused_edit_scenario(rng) if r < 0.88 else replica_scenario(rng)
     return lambda rng: pick(rng) if rng.random() < share else gen(rng)
+
+
+def replica_scenario(rng):
+    """Directed: two REPLICAS of one master key (a backup is taken and restored later - same signing key, same structure).
+    Each replica then receives the same two additions in a DIFFERENT order, so that equal names get different identifiers.
+    A key issued by replica A after the backup is unknown to replica B: B's refresh must refuse it, and whatever happens
+    the key must open nothing of what B encrypts beyond its policy (B's numbering gives A's right names another meaning)."""
+    x = hist.x; h = lambda: rng.choice('01')
+    out = ['SETUP', f"AH {x('S')}", f"AT {x('S')} {x('l')} {h()} -", f"AT {x('S')} {x('t')} {h()} {x('l')}",
+           f"AA {x('D')}", f"AT {x('D')} {x('a')} {h()} -", 'UPD', 'SNAP']; nmpk = 2
+    add_x = f"AT {x('D')} {x('x')} {h()} -"; add_u = f"AT {x('S')} {x('u')} {h()} {x('t')}"
+    pols = ['D::x && S::l', 'D::a', 'D::x', 'S::l']
+    kp = rng.sample(pols, rng.randint(1, 3))
+    out += [add_x, add_u, 'UPD'] + [f'KG {x(q)}' for q in kp]; nmpk += 1
+    if rng.random() < 0.3: out.append(f'RK {x("D::x")}'); nmpk += 1
+    out.append('REST 0')
+    out += [add_u, add_x, 'UPD']; nmpk += 1
+    eps = ['S::u', 'S::u && D::a', 'D::x && S::t', 'D::x && S::l', 'D::a && S::l']
+    ne = 0
+    for q in rng.sample(eps, rng.randint(2, len(eps))): out.append(f'EN {nmpk - 1} {x(q)}'); ne += 1
+    for k in range(len(kp)):
+        out += [f'DE {k} {e}' for e in range(ne)]
+        out.append(f"RF {k} {rng.choice('01')}")
+        out += [f'DE {k} {e}' for e in range(ne)]
+    return out
 
 
 def rotation_scenario(rng, disable=False):
